@@ -86,6 +86,7 @@ def run_check(pid, tier, replay=None):
     violations = []
     model_notes = []
     stage_notes = []
+    viol_hist = {}
     try:
         if replay:
             with open(replay) as f:
@@ -173,6 +174,8 @@ def run_check(pid, tier, replay=None):
                         else:
                             p = violations[0][2]
                         violations.append((f"{st.name}#{rid}", detail, p))
+                        hk = f"{detail} cfg={rec.get('cfg', '-')}"
+                        viol_hist[hk] = viol_hist.get(hk, 0) + 1
             want = st.sample or 2
             for r in records[:: max(1, len(records) // want)][:want]:
                 samples.append({"stage": st.name, "record": _shrink(r), "verdict": list(verdicts[r["id"]])})
@@ -199,6 +202,8 @@ def run_check(pid, tier, replay=None):
         if shown < 25:
             print(f"VIOLATION property={pid} replay={path} clause={clause} at={where}")
         shown += 1
+    for hk, cnt in sorted(viol_hist.items()):
+        print(f"VIOLATION-SUMMARY property={pid} {hk} count={cnt}")
     if shown > 25:
         print(f"... {shown - 25} more violations (replay files under work/replays/{pid}/)")
     if not replay:
